@@ -4,6 +4,7 @@ from __future__ import annotations
 import numpy as np
 
 import c08_impl
+import c08_opts
 import c08_scale
 import run_ladim as rl
 import setup_impl as su
@@ -26,10 +27,18 @@ RULE = ("This property is a differential statement, so the oracle is the real th
         "particles die in their first records (no particle variables: the identifiers of later releases), a last record "
         "of > 100 000 particles, 130 records per file, > 60 000 particles released continuously of which 7500 alive, "
         "70 000 dead particles in the particle variables, > 1000 steps between records and forcing frames, file "
-        "numbers passing 999 -> 1000, a reference time decades before the run.")
+        "numbers passing 999 -> 1000, a reference time decades before the run. "
+        "A fixed family of OPTION-COMBINATION cases (c08_opts.py, oracle-only, right after the scale cases) states the same "
+        "differential property for set-ups that cover PAIRWISE the options on the path of a warm start: EF/RK2/RK4, output "
+        "(= restart file) variables stored as f8, f4, packed (scale_factor / add_offset on Z only or on every variable) or "
+        "integer-typed, time reversal, subgrid, continuous release, lon/lat output variables, no / one / two particle "
+        "variables, an extra instance variable from the release file, forcing stored as f8 / f4 / packed in one or three "
+        "files, YAML / TOML configuration, release columns named by a header, grid file named / omitted / separate, "
+        "three (duration, period, numrec) splits, default / explicit reference time; all values are dyadic by construction "
+        "so that every encoding is lossless for them and the comparison is the usual one (identifiers exact, 1e-9).")
 TRUSTED = ["Coq 8.16.1 kernel + vm_compute", "system model coq/Model/Sim.v (restore, catch-up step, loop) with its executable instance tied by this correspondence",
            "physics abstract in the theorem (per-particle function of the step)"]
-ASSUMPTIONS = ["diffusion off", "all state variables written to the output and listed as warm-start variables, lossless datatypes (f8/i4)",
+ASSUMPTIONS = ["diffusion off", "all state variables written to the output and listed as warm-start variables, datatypes / packings that are lossless for the values written (f8/i4; f4, i2/i4 with scale_factor/add_offset only with values exactly representable in them)",
                "KNOWN FINDING: the number of released particles cannot be restored from a file without particle variables"]
 
 
@@ -37,6 +46,8 @@ def gen_cases(ctx):
     rng = ctx.rng
     # deterministic scale cases, always present and first (they do not draw from rng)
     out = c08_scale.gen_scale_cases()
+    # deterministic option-combination cases (a fixed pairwise-covering table, no draw from rng), always right after them
+    out += c08_opts.gen_opts_cases()
     for _ in range(7 if ctx.quick else 60):
         env = si.make_env(rng, N=rng.randint(5, 11))
         out.append({"k": "sim", "env": env, "numrec": rng.choice([1, 2, 2, 3]), "seed": rng.randrange(10**6)})
@@ -82,6 +93,8 @@ def eval_case(desc, ctx):
         f.unlink()
     if desc["k"] == "scale":
         return c08_scale.eval_scale(desc, d)
+    if desc["k"] == "opts":
+        return c08_opts.eval_opts(desc, d)
     if desc["k"] == "impl":
         return eval_impl(desc, d)
     if desc["k"] == "setup":
